@@ -30,7 +30,8 @@ EXPLANATION = (
     "elements); CompoundPrecondition and NumericalExpressionTree pass "
     "the map on to their root / leaves; in Precondition.change_signature a renaming call is reachable for every kind of operand "
     "(valuation of the isinstance tests for Predicate / NumericalExpressionTree / nested Precondition, here and in "
-    "Precondition.__iter__ when the operands are obtained by iterating the condition). C18.pairs: every component "
+    "Precondition.__iter__ when the operands are obtained by iterating the condition; a type test whose operands are exchanged, "
+    "isinstance(<class>, <operand>), raises when it is evaluated: for the kinds of operand that reach it nothing counts as renamed). C18.pairs: every component "
     "of each (in)equality pair is looked up in the map (no old name reaches the new set), the pairs come from the same field, "
     "nothing is filtered, pairs are not removed and inserted one by one, and the new set replaces the old one; a nested condition "
     "receives change_signature itself (same valuation with 'the operand is a Precondition'). Before the analysis the flattened "
@@ -402,6 +403,9 @@ def rule_fields(repo: Repo) -> RuleResult:
             r.ok({"operand_kind": kind, "renamed": sorted(how)})
         elif kind == "Precondition":
             r.fail(Finding("C18.fields", pf, what, "the predicates / numeric conditions inside nested conditions are never handed the renaming map"))
+        elif TYPE_TEST_RAISES in how:
+            r.fail(Finding("C18.fields", pf, what, f"for an operand of class {kind} the dispatch evaluates isinstance(<class>, <operand>) -- the operands of the type test "
+                           f"are exchanged, it raises TypeError: the operand is never handed the renaming map and the action is left half renamed"))
         else:
             r.fail(Finding("C18.fields", pf, what, f"operands of class {kind} are never handed the renaming map: they keep the old parameter names"))
     r.require_sites(11)
@@ -451,6 +455,7 @@ def _judge_pairs(v: U.View, w: U.Write, obj, mp: str) -> Optional[str]:
 
 # ---- which kind of operand reaches X.change_signature(map): valuation of the isinstance tests
 OPERAND_KINDS = ("Predicate", "NumericalExpressionTree", "Precondition")
+TYPE_TEST_RAISES = "type-test-raises"
 
 
 def _kind_atom(repo: Repo, f: FuncInfo):
@@ -488,7 +493,27 @@ def _kind_atom(repo: Repo, f: FuncInfo):
             return "is:" + "|".join(sorted(set(ns)))
         return None
 
+    m.class_names = names
     return m
+
+
+def _ill_formed_type_tests(repo: Repo, f: FuncInfo) -> List[ast.Call]:
+    """isinstance(<a class>, <not a class>): the operands of the type test are exchanged -- evaluating it raises TypeError (the second
+    operand of isinstance must be a type or a tuple of types), so whatever is dispatched behind it is never reached"""
+    names = _kind_atom(repo, f).class_names
+    bound = {n.id for n in ast.walk(f.node) if isinstance(n, ast.Name) and isinstance(n.ctx, ast.Store)} | set(f.params)
+    out = []
+    for e in L.calls_in(f.node):
+        if not (isinstance(e.func, ast.Name) and e.func.id == "isinstance" and len(e.args) == 2 and not e.keywords):
+            continue
+        a, b = e.args
+        if not (isinstance(a, ast.Name) and a.id not in bound):
+            continue
+        ra = repo.lookup(f.mod.name, a.id)
+        is_class = a.id in repo.classes or bool(ra and ra[0] == "class")
+        if is_class and "?" in names(b) and not (isinstance(b, ast.Name) and (b.id in repo.classes or b.id not in bound)):
+            out.append(e)
+    return out
 
 
 def _scenario(repo: Repo, G: L.Guards, kind: str) -> dict:
@@ -543,7 +568,11 @@ def _operand_renaming(repo: Repo, v: U.View, mp: str, kind: str) -> Set[str]:
     under = G.under(val, seen)
     out: Set[str] = set()
     delivered = None
-    for c in _rename_calls(v, mp):
+    # a type test with exchanged operands that is evaluated for an operand of this kind raises: nothing behind it renames the operand
+    broken = [t for t in _ill_formed_type_tests(repo, f) if G.reaches_expr(val, t, seen=seen)]
+    if broken:
+        out.add(TYPE_TEST_RAISES)
+    for c in ([] if broken else _rename_calls(v, mp)):
         if not G.reaches_expr(val, c, seen=seen):
             continue
         for x in v.trace(c.func.value, under=under):
